@@ -170,6 +170,24 @@ Section TwoWay.
       bind (if keep_b then doc_bulk_update hack (p_rows_b s) b1 rows_k (select row_keep (fst vb)) else Ok b1) (fun b2 =>
         Ok {| p_a := a2; p_b := b2; p_rows_a := p_rows_a s; p_rows_b := p_rows_b s |})))))).
 
+  (* ---- the user action.  doBulkUpdateRecord (since /repo commit 060dc6b) first keeps only the LAST occurrence of
+     a row id named more than once (all columns alike); update_a / update_b / update_both above are what follows. *)
+  Fixpoint keep_last (row_ids : list nat) : list bool :=
+    match row_ids with
+    | [] => []
+    | r :: t => negb (memN r t) :: keep_last t
+    end.
+
+  Definition user_update_a (s : pair_state) (row_ids : list nat) (values : list cell) : res pair_state :=
+    update_a s (select (keep_last row_ids) row_ids) (select (keep_last row_ids) values).
+
+  Definition user_update_b (s : pair_state) (row_ids : list nat) (values : list cell) : res pair_state :=
+    update_b s (select (keep_last row_ids) row_ids) (select (keep_last row_ids) values).
+
+  Definition user_update_both (s : pair_state) (row_ids : list nat) (vals_a vals_b : list cell) : res pair_state :=
+    update_both s (select (keep_last row_ids) row_ids) (select (keep_last row_ids) vals_a)
+                (select (keep_last row_ids) vals_b).
+
   (* recalc_from_reverse_values of column A: B is rebuilt from A's relation, row by row of TB (AddReverseColumn,
      and after a Ref<->RefList switch of A) *)
   Definition recalc_from_a (s : pair_state) : res pair_state :=
